@@ -186,6 +186,67 @@ def consistent_thresholding(R, D, ok_pairs):
     return (not rec) or (not non) or max(rec) < min(non)
 
 
+# ------------------------------------------------------------------ missing samples: admissible rate quantiles
+
+INF = float("inf")
+BEYOND = ("recurrence_rate / local_recurrence_rate on data with NaN where position floor(rate*(n-1)) of the n "
+          "matrix entries lies beyond the distances of the complete pairs, for objects without "
+          "missing_values=True (no documented semantics): not judged")
+
+
+def pair_mask(missa, missb):
+    """1 where the row state or the column state holds a missing value."""
+    return np.array([[1 if (a or b) else 0 for b in missb] for a in missa],
+                    dtype=np.int8).reshape(len(missa), len(missb))
+
+
+def finite_at(Dl, mask):
+    """The finite values the library's own distance matrix holds at the masked (missing) pairs; they
+    are no distances (the supremum kernel skips NaN components, the diagonal is never computed)."""
+    Dl = np.asarray(Dl, dtype=float)
+    return [float(v) for v in Dl[np.asarray(mask) == 1].ravel() if math.isfinite(v)]
+
+
+def rate_admissible(fin, extra, n, rate):
+    """Thresholds a fixed-rate construction may select when some of the n entries belong to pairs with
+    a missing state.  `fin`: ascending distances of the complete pairs.  The property fixes 'the stated
+    quantile of the distances' = position floor(rate*(len-1)); with missing pairs the docstrings do not
+    say which sequence is meant, so every reading is admitted:
+      (A) the distances that exist (complete pairs only);
+      (B) all n entries, pairs without a distance placed last;
+      (C) all n entries as the object's own distance_matrix() holds them (`extra` = its finite values
+          at missing pairs), NaN last.
+    Returns (thresholds, beyond): beyond = the position of (C) falls among the NaN entries; then (as
+    for (B) beyond the finite part) the largest distance and +inf are admitted as well."""
+    nf = len(fin)
+    cands = set()
+    beyond = beyond_b = False
+    for k in (S.quantile_indices(rate, nf) if nf else ()):
+        cands.add(fin[k])
+    hyb = sorted(list(fin) + list(extra))
+    for k in S.quantile_indices(rate, n):
+        if k < nf:
+            cands.add(fin[k])
+        else:
+            beyond_b = True
+        if k < len(hyb):
+            cands.add(hyb[k])
+        else:
+            beyond = True
+    if (beyond or beyond_b) and nf:
+        cands.update((fin[-1], INF))
+    return sorted(cands), beyond
+
+
+def matches_some_threshold(R, D, cands, tol, free0):
+    """R == [D < q] off the cells marked in free0 for some q of cands."""
+    for q in cands:
+        want, free = thr_with_free(D, q, 0.0 if math.isinf(q) else tol)
+        if mat_equal(R, want, np.maximum(free, free0)):
+            return True
+    return False
+
+
 # ------------------------------------------------------------------ normalisation / assigned embeddings
 
 NTOL = 1e-5      # float32 arithmetic of normalize_time_series
@@ -328,6 +389,34 @@ def rp_variants(D, N, scalar, anymiss, rich=True, thresholds=None):
     return res
 
 
+def few_thresholds(D):
+    """Second smallest and median distance (strictness at an attained value), a value between two
+    distances, one above the maximum - of the finite distances."""
+    vals = sorted({float(v) for v in np.asarray(D, dtype=float).ravel() if math.isfinite(v)})
+    if not vals:
+        return [1.0]
+    out = [vals[min(1, len(vals) - 1)], vals[len(vals) // 2]]
+    if len(vals) >= 3:
+        out.append((vals[-2] + vals[-1]) / 2.0)
+    out.append(vals[-1] + 1.0)
+    return sorted(set(out))
+
+
+def missing_variants(D, ncomplete, scalar, rich=True):
+    """Every threshold-selection variant of RecurrencePlot / RecurrenceNetwork for a series with
+    missing samples, through the constructor and through set_* of a live object."""
+    out = [["threshold", t] for t in few_thresholds(D)]
+    if scalar:
+        out += [["threshold_std", 1.0]]
+    out += [["recurrence_rate", r] for r in ((0.0, 0.2, 0.5, 0.8, 1.0) if rich else (0.2, 0.6, 1.0))]
+    out += [["local_recurrence_rate", r] for r in ((0.0, 0.3, 0.6, 1.0) if rich else (0.3, 0.8))]
+    out += [["adaptive_neighborhood_size", k]
+            for k in (sorted({1, 2, max(ncomplete - 1, 1)}) if rich else sorted({1, min(3, max(ncomplete - 1, 1))}))]
+    nthr = sum(1 for v in out if v[0] == "threshold")
+    return [v + ["ctor"] for v in out] + \
+           [v + ["setter"] for v in [out[nthr - 1]] + list(reversed(out[:nthr - 1] + out[nthr:]))]
+
+
 # ------------------------------------------------------------------ RecurrencePlot / RecurrenceNetwork
 
 def run_rp(rep, C, w):
@@ -376,6 +465,8 @@ def run_rp(rep, C, w):
     scalar = x.ndim == 1
     D = S.distance_matrix(states, states, metric)
     okpairs = [(i, j) for i in range(N) for j in range(N) if not (miss[i] or miss[j])]
+    missmask = pair_mask(miss, miss)
+    comp = [i for i in range(N) if not miss[i]]
     rqa_every = int(w.get("rqa_every", 1))
     shared = None
     prev = None
@@ -436,14 +527,24 @@ def run_rp(rep, C, w):
                              f"{m}: got {Dl.tolist()} want {Dm.tolist()}")
         # -- the variant's clause
         rep.case()
+        missrec = []
         if mv and anymiss:
-            bad = [i for i in range(N) if miss[i] and (R[i, :].any() or R[:, i].any())]
-            if bad and kind != "adaptive_neighborhood_size":
+            missrec = bad = [i for i in range(N) if miss[i] and (R[i, :].any() or R[:, i].any())]
+            if bad:
                 rep.fail(f"{P}/missing-never-recurrent", wit, f"missing states {bad} recurrent: {R.tolist()}")
         if kind == "threshold":
             want, free = thr_with_free(D, value, tol)
-            if not mat_equal(R, want, free):
+            if anymiss and not mv:
+                # no missing_values=True: cells of a state with NaN are not judged
+                if not mat_equal(R, want, np.maximum(free, missmask)):
+                    rep.fail(f"{P}/missing/strict-below-threshold", wit,
+                             f"complete pairs: got {R.tolist()} want {want.tolist()}")
+            elif not mat_equal(R, want, free):
                 rep.fail(f"{P}/strict-below-threshold", wit, f"got {R.tolist()} want {want.tolist()}")
+        elif kind == "threshold_std" and anymiss:
+            # the standard deviation of a series with NaN samples is not defined by the docstrings
+            if not consistent_thresholding(R, D, okpairs):
+                rep.fail(f"{P}/missing/is-a-thresholding", wit, f"got {R.tolist()} D {D.tolist()}")
         elif kind == "threshold_std":
             thr = value * pstd(std_series)
             want, free = thr_with_free(D, thr, GUARD_STD)
@@ -453,6 +554,15 @@ def run_rp(rep, C, w):
             if anymiss:
                 if not consistent_thresholding(R, D, okpairs):
                     rep.fail(f"{P}/is-a-thresholding", wit, f"got {R.tolist()} D {D.tolist()}")
+                if comp:
+                    Dl = np.asarray(obj.distance_matrix(metric), dtype=float)
+                    fin = sorted(float(D[i, j]) for (i, j) in okpairs)
+                    cands, beyond = rate_admissible(fin, finite_at(Dl, missmask), N * N, value)
+                    if beyond and not mv:
+                        rep.skip(BEYOND)
+                    elif not matches_some_threshold(R, D, cands, tol, missmask):
+                        rep.fail(f"{P}/missing/" + ("quantile-position-among-missing-pairs" if beyond else "stated-quantile"),
+                                 wit, f"complete pairs: got {R.tolist()}; admissible [D<q], q in {cands}; D {D.tolist()}")
             else:
                 cands = rate_candidates(D, value)
                 if not any(mat_equal(R, *thr_with_free(D, q, tol)) for q in cands):
@@ -462,6 +572,8 @@ def run_rp(rep, C, w):
                     rep.fail(f"{P}/rate-not-exceeded", wit, f"achieved {R.sum()/(N*N)} requested {value}")
         elif kind == "local_recurrence_rate":
             tiefree = True
+            Dl = np.asarray(obj.distance_matrix(metric), dtype=float) if (anymiss and comp) else None
+            rowbad = None
             for i in range(N):
                 if miss[i]:
                     continue
@@ -471,6 +583,15 @@ def run_rp(rep, C, w):
                     if not consistent_thresholding(R[i:i + 1, :], row, pairs):
                         rep.fail(f"{P}/row-is-a-thresholding", wit, f"row {i}: got {R[i].tolist()} D {row.tolist()}")
                         break
+                    fin = sorted(float(D[i, j]) for j in comp)
+                    if len(set(fin)) < len(fin):
+                        tiefree = False
+                    cands, beyond = rate_admissible(fin, finite_at(Dl[i:i + 1, :], missmask[i:i + 1, :]), N, value)
+                    if beyond and not mv:
+                        rep.skip(BEYOND)
+                    elif rowbad is None and not matches_some_threshold(R[i:i + 1, :], row, cands, tol, missmask[i:i + 1, :]):
+                        rowbad = (f"{P}/missing/" + ("row-quantile-position-among-missing-pairs" if beyond else "row-quantile"),
+                                  f"row {i}, complete columns: got {R[i].tolist()}; admissible [D<q], q in {cands}; D {row.tolist()}")
                     continue
                 cands = rate_candidates(row, value)
                 if not any(mat_equal(R[i:i + 1, :], *thr_with_free(row, q, tol)) for q in cands):
@@ -478,17 +599,35 @@ def run_rp(rep, C, w):
                     break
                 if len(set(row.ravel().tolist())) < N:
                     tiefree = False
+            if rowbad:
+                rep.fail(rowbad[0], wit, rowbad[1])
             if tiefree and not anymiss and N:
                 sums = R.sum(axis=1).tolist()
                 if len(set(sums)) > 1:
                     rep.fail(f"{P}/same-number-of-recurrences", wit, f"row sums {sums}")
+            if tiefree and anymiss and mv and len(comp) > 1:
+                sums = [int(sum(int(R[i, j]) for j in comp)) for i in comp]
+                if len(set(sums)) > 1:
+                    rep.fail(f"{P}/missing/same-number-of-recurrences", wit,
+                             f"recurrences of the complete states {comp}: {sums}; R {R.tolist()}")
         elif kind == "adaptive_neighborhood_size":
             if not (np.asarray(R) == np.asarray(R).T).all():
                 rep.fail(f"{P}/symmetric", wit, f"got {R.tolist()}")
             nb = (R.sum(axis=1) - np.diag(R)).tolist()
-            need = min(int(value), N - 1)
-            if any(v < need for v in nb):
-                rep.fail(f"{P}/at-least-k-neighbours", wit, f"neighbours {nb} < {need}: {R.tolist()}")
+            if anymiss and not mv:
+                pass        # NaN samples without missing_values=True: the states are ordinary ones to the
+                #             algorithm, their 'distances' depend on the kernel; neighbour counts not judged
+            elif anymiss:
+                # a complete state has at most len(comp)-1 admissible neighbours; judged once no
+                # missing state is marked recurrent (clause above)
+                need = min(int(value), len(comp) - 1)
+                if not missrec and any(nb[i] < need for i in comp):
+                    rep.fail(f"{P}/missing/at-least-k-neighbours", wit,
+                             f"neighbours {nb} (complete states {comp}) < {need}: {R.tolist()}")
+            else:
+                need = min(int(value), N - 1)
+                if any(v < need for v in nb):
+                    rep.fail(f"{P}/at-least-k-neighbours", wit, f"neighbours {nb} < {need}: {R.tolist()}")
         key = (cname, repr(w["x"]), dim, tau, metric, mv, kind, value,
                bool(w.get("normalize")), repr(assign) if assign else None)
         rep.case(repr(key), nontrivial=nontrivial(R),
@@ -535,7 +674,10 @@ CRP_NOTIMPL = ["diagline_dist", "vertline_dist", "white_vertline_dist", "max_dia
                "rqa_summary"]
 
 
-def check_crp_object(rep, obj, wit, P, Dxy, kind, value, tol, Nx, Ny, lab="CrossRecurrencePlot"):
+def check_crp_object(rep, obj, wit, P, Dxy, kind, value, tol, Nx, Ny, lab="CrossRecurrencePlot", missmask=None,
+                     metric=None):
+    """missmask (series with NaN samples; the class has no missing_values option): cells of a state
+    with a missing value are not judged, the rate quantile is any of rate_admissible()."""
     CR = obj.recurrence_matrix()
     if CR is None or np.asarray(CR).shape != (Nx, Ny) or int(obj.N) != Nx or int(obj.M) != Ny:
         rep.fail(f"{lab}/sizes", wit, f"CR {None if CR is None else CR.shape} N={obj.N} M={obj.M} want {(Nx, Ny)}")
@@ -545,8 +687,21 @@ def check_crp_object(rep, obj, wit, P, Dxy, kind, value, tol, Nx, Ny, lab="Cross
         return None
     if kind == "threshold":
         want, free = thr_with_free(Dxy, value, tol)
-        if not mat_equal(CR, want, free):
+        if missmask is not None:
+            if not mat_equal(CR, want, np.maximum(free, missmask)):
+                rep.fail(f"{P}/missing/strict-below-threshold", wit,
+                         f"complete pairs: got {CR.tolist()} want {want.tolist()}")
+        elif not mat_equal(CR, want, free):
             rep.fail(f"{P}/strict-below-threshold", wit, f"got {CR.tolist()} want {want.tolist()}")
+    elif missmask is not None:
+        fin = sorted(float(v) for v in Dxy[missmask == 0].ravel())
+        if fin:
+            cands, beyond = rate_admissible(fin, finite_at(obj.distance_matrix(metric), missmask), Nx * Ny, value)
+            if beyond:
+                rep.skip(BEYOND)
+            elif not matches_some_threshold(CR, Dxy, cands, tol, missmask):
+                rep.fail(f"{P}/missing/stated-quantile", wit,
+                         f"complete pairs: got {CR.tolist()}; admissible [D<q], q in {cands}; D {Dxy.tolist()}")
     else:
         cands = rate_candidates(Dxy, value)
         if not any(mat_equal(CR, *thr_with_free(Dxy, q, tol)) for q in cands):
@@ -593,6 +748,8 @@ def run_crp(rep, C, w):
     lab = "CrossRecurrencePlot" + ("@normalize" if w.get("normalize") else "")
     Nx, Ny = len(sx), len(sy)
     Dxy = S.distance_matrix(sx, sy, metric)
+    missx, missy = S.is_missing(sx), S.is_missing(sy)
+    missmask = pair_mask(missx, missy) if (any(missx) or any(missy)) else None
     shared = None
     first = True
     for kind, value, via in w["variants"]:
@@ -610,7 +767,7 @@ def run_crp(rep, C, w):
         except Exception as e:                                   # noqa: BLE001
             rep.fail(f"{P}/constructible", wit, f"{type(e).__name__}: {e}")
             continue
-        CR = check_crp_object(rep, obj, wit, P, Dxy, kind, value, tol, Nx, Ny, lab)
+        CR = check_crp_object(rep, obj, wit, P, Dxy, kind, value, tol, Nx, Ny, lab, missmask, metric)
         if CR is None:
             continue
         rep.case(repr(("CRP", w["x"], w["y"], dim, tau, metric, kind, value, bool(w.get("normalize")))),
@@ -622,11 +779,13 @@ def run_crp(rep, C, w):
             for m in S.METRICS:
                 Dl = np.asarray(obj.distance_matrix(m))
                 Dm = S.distance_matrix(sx, sy, m)
+                if missmask is not None and Dl.shape == Dm.shape:      # pairs with a missing state: no distance
+                    Dl, Dm = np.where(missmask == 1, 0.0, Dl), np.where(missmask == 1, 0.0, Dm)
                 if Dl.shape != Dm.shape or not np.allclose(Dl, Dm, rtol=0 if tol == 0 else 1e-12, atol=0):
                     rep.fail(f"{lab}/distance_matrix", dict(wit, distance_metric=m),
                              f"{m}: got {Dl.tolist()} want {Dm.tolist()}")
             for xe, se, nm in ((obj.x_embedded, sx, "x"), (obj.y_embedded, sy, "y")):
-                if not np.array_equal(np.asarray(xe), se):
+                if not np.array_equal(np.asarray(xe), se, equal_nan=True):
                     rep.fail(f"{lab}/embedding", wit, f"{nm}: got {np.asarray(xe).tolist()} want {se.tolist()}")
             rep.case()
             for name in CRP_NOTIMPL:
@@ -683,6 +842,12 @@ def run_jrp(rep, C, w):
         stdx, stdy = np.asarray(probe.x, dtype=np.float64), np.asarray(probe.y, dtype=np.float64)
     lab = cname + ("@normalize" if nflag is not None else "")
     Dx, Dy = S.distance_matrix(sx, sx, mx), S.distance_matrix(sy, sy, my)
+    # series with NaN samples (the joint classes have no missing_values option): cells that involve a
+    # state with a missing value are not judged, rate quantiles are any of rate_admissible()
+    missx, missy = S.is_missing(sx), S.is_missing(sy)
+    anymiss = any(missx) or any(missy)
+    mmx, mmy = pair_mask(missx, missx), pair_mask(missy, missy)
+    extras = None
     shared = None
     prev = None
     for vi, (kind, value, via) in enumerate(w["variants"]):
@@ -710,11 +875,28 @@ def run_jrp(rep, C, w):
             alts = [(thr_with_free(Dx, value[0], tol), thr_with_free(Dy, value[1], tol))]
         elif kind == "threshold_std":
             alts = [(thr_with_free(Dx, value[0] * pstd(stdx), GUARD_STD), thr_with_free(Dy, value[1] * pstd(stdy), GUARD_STD))]
+        elif anymiss:
+            if extras is None:
+                RPc = C["RecurrencePlot"]
+                extras = [finite_at(RPc(st, metric=m, threshold=1.0, silence_level=3).distance_matrix(m), mm)
+                          for st, m, mm in ((sx, mx, mmx), (sy, my, mmy))]
+            qs = []
+            for D_, mm, ex, r in ((Dx, mmx, extras[0], value[0]), (Dy, mmy, extras[1], value[1])):
+                cands, beyond = rate_admissible(sorted(float(v) for v in D_[mm == 0].ravel()), ex, D_.size, r)
+                qs.append(None if (beyond or not cands) else cands)
+            if qs[0] is None or qs[1] is None:
+                rep.skip(BEYOND)
+                alts = []
+            else:
+                alts = [(thr_with_free(Dx, qx, 0.0 if math.isinf(qx) else tol),
+                         thr_with_free(Dy, qy, 0.0 if math.isinf(qy) else tol)) for qx in qs[0] for qy in qs[1]]
         else:
             alts = [(thr_with_free(Dx, qx, tol), thr_with_free(Dy, qy, tol))
                     for qx in rate_candidates(Dx, value[0]) for qy in rate_candidates(Dy, value[1])]
-        good = False
+        good = not alts
         for (Rx, fx), (Ry, fy) in alts:
+            if anymiss:
+                fx, fy = np.maximum(fx, mmx), np.maximum(fy, mmy)
             J = S.joint_matrix(Rx, Ry, lag)
             Jfree = 1 - S.joint_matrix(1 - fx, 1 - fy, lag)
             if mat_equal(JR, J, Jfree):
@@ -722,8 +904,9 @@ def run_jrp(rep, C, w):
                 break
         if not good:
             (Rx, _), (Ry, _) = alts[0]
-            rep.fail(f"{P}/product-of-shifted-thresholded-matrices", wit,
-                     f"got {np.asarray(JR).tolist()} want {S.joint_matrix(Rx, Ry, lag).tolist()}")
+            rep.fail(f"{P}/" + ("missing/" if anymiss else "") + "product-of-shifted-thresholded-matrices", wit,
+                     f"got {np.asarray(JR).tolist()} want {S.joint_matrix(Rx, Ry, lag).tolist()}"
+                     + (" on the cells whose four states are complete" if anymiss else ""))
         rep.case(repr((cname, w["x"], w["y"], dim, tau, mx, my, lag, kind, value, repr(nflag))), nontrivial=nontrivial(JR),
                  sample={"cls": cname, "x": w["x"], "y": w["y"], "lag": lag, kind: value, "JR": np.asarray(JR).tolist()})
         if cname == "JointRecurrenceNetwork":
@@ -774,12 +957,27 @@ def run_isrn(rep, C, w):
     Nx, Ny = len(sx), len(sy)
     Dx, Dy = S.distance_matrix(sx, sx, metric), S.distance_matrix(sy, sy, metric)
     Dxy = S.distance_matrix(sx, sy, metric)
+    # series with NaN samples (no missing_values option): cells of a state with a missing value are
+    # not judged, rate quantiles are any of rate_admissible()
+    missx, missy = S.is_missing(sx), S.is_missing(sy)
+    anymiss = any(missx) or any(missy)
+    masks = (pair_mask(missx, missx), pair_mask(missy, missy), pair_mask(missx, missy))
+    shared = None
+    prev = None
     for vi, (kind, value, via) in enumerate(w["variants"]):
-        wit = dict(w, variants=[[kind, value, via]])
+        wit = dict(w, variants=([prev] if (via == "setter" and prev) else []) + [[kind, value, via]])
         P = f"{lab}/{kind}"
         rep.case()
         try:
-            obj = cls(x, y, **kw, **{kind: tuple(value)})
+            if via == "setter":      # set_fixed_threshold / set_fixed_recurrence_rate of a live network
+                if shared is None:
+                    shared = cls(x, y, **kw, threshold=(0.123, 0.123, 0.123))
+                    shared.degree()
+                getattr(shared, SETTER[kind])(tuple(value))
+                obj = shared
+                prev = [kind, value, via]
+            else:
+                obj = cls(x, y, **kw, **{kind: tuple(value)})
         except Exception as e:                                   # noqa: BLE001
             rep.fail(f"{P}/constructible", wit, f"{type(e).__name__}: {e}")
             continue
@@ -790,16 +988,30 @@ def run_isrn(rep, C, w):
             continue
         if kind == "threshold":
             alts = [[thr_with_free(D, t, tol)] for D, t in ((Dx, value[0]), (Dy, value[1]), (Dxy, value[2]))]
+        elif anymiss:
+            alts = []
+            for D, r, mm, sub in ((Dx, value[0], masks[0], obj.rp_x), (Dy, value[1], masks[1], obj.rp_y),
+                                  (Dxy, value[2], masks[2], obj.crp_xy)):
+                cands, beyond = rate_admissible(sorted(float(v) for v in D[mm == 0].ravel()),
+                                                finite_at(sub.distance_matrix(metric), mm), D.size, r)
+                if beyond or not cands:
+                    rep.skip(BEYOND)
+                    alts.append(None)
+                else:
+                    alts.append([thr_with_free(D, q, 0.0 if math.isinf(q) else tol) for q in cands])
         else:
             alts = [[thr_with_free(D, q, tol) for q in rate_candidates(D, r)]
                     for D, r in ((Dx, value[0]), (Dy, value[1]), (Dxy, value[2]))]
         blocks = []
-        for nm, got, alt in (("rp_x", obj.rp_x.recurrence_matrix(), alts[0]),
-                             ("rp_y", obj.rp_y.recurrence_matrix(), alts[1]),
-                             ("crp_xy", obj.crp_xy.recurrence_matrix(), alts[2])):
-            hit = [Rw for (Rw, fr) in alt if mat_equal(got, Rw, fr)]
-            if not hit:
-                rep.fail(f"{P}/{nm}-thresholded", wit, f"got {np.asarray(got).tolist()} want {alt[0][0].tolist()}")
+        for nm, got, alt, mm in (("rp_x", obj.rp_x.recurrence_matrix(), alts[0], masks[0]),
+                                 ("rp_y", obj.rp_y.recurrence_matrix(), alts[1], masks[1]),
+                                 ("crp_xy", obj.crp_xy.recurrence_matrix(), alts[2], masks[2])):
+            if alt is not None:
+                hit = [Rw for (Rw, fr) in alt if mat_equal(got, Rw, np.maximum(fr, mm) if anymiss else fr)]
+                if not hit:
+                    rep.fail(f"{P}/" + ("missing/" if anymiss else "") + f"{nm}-thresholded", wit,
+                             f"got {np.asarray(got).tolist()} want {alt[0][0].tolist()}"
+                             + (" on the pairs of complete states" if anymiss else ""))
             blocks.append(np.asarray(got))
         Rx, Ry, Cxy = blocks
         if Rx.shape == (Nx, Nx) and Ry.shape == (Ny, Ny) and Cxy.shape == (Nx, Ny):
@@ -1047,7 +1259,220 @@ def pair_thresholds(Dx, Dy):
     return out
 
 
+# ---- family: missing samples x every metric x every threshold-selection variant
+
+NAN = float("nan")
+GOLOMB = (15.0, 0.0, 34.0, 4.0, 22.0, 1.0, 32.0, 9.0)     # all pairwise differences distinct (tie-free rows)
+GOLOMB_Y = (9.0, 32.0, 1.0, 22.0, 0.0, 34.0, 15.0)
+GOLOMB_2D = ((15.0, 1.0), (0.0, 32.0), (34.0, 9.0), (4.0, 22.0), (22.0, 0.0), (1.0, 15.0))
+
+
+def with_nan(x, pos):
+    """Copy of the (scalar or 2-d) series with NaN at the positions `pos` (index or (row, column))."""
+    out = [list(v) if isinstance(v, (list, tuple)) else v for v in x]
+    for q in pos:
+        if isinstance(q, (list, tuple)):
+            out[q[0]][q[1]] = NAN
+        else:
+            out[q] = NAN
+    return out
+
+
+def missing_rp_case(cls, x, emb, metric, mv, exact=True, rich=True, rqa_every=5):
+    st = states_of(x, emb[0] if emb else None, emb[1] if emb else None)
+    D = S.distance_matrix(st, st, metric)
+    ncomp = len(st) - sum(S.is_missing(st))
+    w = {"cls": cls, "x": x, "metric": metric, "missing_values": mv, "exact": exact, "rqa_every": rqa_every,
+         "all_metrics": True, "variants": missing_variants(D, ncomp, np.asarray(x).ndim == 1, rich)}
+    if emb:
+        w.update(dim=emb[0], tau=emb[1])
+    return w
+
+
+def missing_family(tier, seed):
+    T = tier == "thorough"
+    rng = np.random.RandomState(seed + 70707)
+    n = len(GOLOMB)
+    # NaN samples at the start, inside, at the end; one or several
+    pats = [(0,), (3,), (n - 1,), (0, 1), (2, 5), (n - 2, n - 1), (0, 4, n - 1)]
+    embs = (None, (2, 1), (3, 2), (2, 3)) if T else (None, (2, 1), (3, 2))
+    # ---- RecurrencePlot / RecurrenceNetwork, scalar (embedded) series, tie-free, exact
+    for pi, pat in enumerate(pats):
+        x = with_nan(GOLOMB, pat)
+        for ei, emb in enumerate(embs):
+            for mi, metric in enumerate(S.METRICS):
+                for mv in (False, True):
+                    yield missing_rp_case("RecurrencePlot", x, emb, metric, mv)
+                    if T or (pi + ei + mi) % 3 == 0:
+                        st = states_of(x, *(emb or (None, None)))
+                        if len(st) - sum(S.is_missing(st)) >= 2:
+                            yield missing_rp_case("RecurrenceNetwork", x, emb, metric, mv, rich=T, rqa_every=6)
+    # ---- 2-d series: one component or a whole sample missing
+    pats2 = [((0, 0),), ((2, 1),), ((5, 0), (5, 1)), ((0, 1), (3, 0)), ((1, 0), (1, 1), (4, 1))]
+    for pi, pat in enumerate(pats2):
+        x = with_nan(GOLOMB_2D, pat)
+        for mi, metric in enumerate(S.METRICS):
+            for mv in (False, True):
+                yield missing_rp_case("RecurrencePlot", x, None, metric, mv)
+                if T or (pi + mi) % 2 == 0:
+                    yield missing_rp_case("RecurrenceNetwork", x, None, metric, mv, rich=T, rqa_every=6)
+    # ---- all short series over {0,3,4,NaN} (tied distances) without missing_values=True, and the
+    #      variants the older mv=True family leaves out (threshold_std, adaptive) with it
+    AN = ALPH + (NAN,)
+    for x in seqs(AN, 2, 5 if T else 4):
+        if not any(math.isnan(v) for v in x):
+            continue
+        h = sum(0 if math.isnan(v) else int(v) for v in x) + len(x)
+        for ei, emb in enumerate((None, (2, 1))):
+            if emb_len(len(x), emb) < 1:
+                continue
+            for mi, metric in enumerate(S.METRICS):
+                if len(x) >= 4 and not T and mi != (h + ei) % 3:
+                    continue
+                w = missing_rp_case("RecurrencePlot", x, emb, metric, False, rich=len(x) <= 3 or T, rqa_every=7)
+                w["all_metrics"] = False
+                yield w
+                w = missing_rp_case("RecurrencePlot", x, emb, metric, True, rich=False, rqa_every=7)
+                w["all_metrics"] = False
+                w["variants"] = [v for v in w["variants"] if v[0] in ("threshold_std", "adaptive_neighborhood_size")]
+                yield w
+    # ---- seeded float32 series with 1..4 NaN samples (start / end forced in turn)
+    for k in range(80 if T else 12):
+        nn = 10 + int(rng.randint(21))
+        d = (None, None, 2)[k % 3]
+        emb = None if d else (None, (2, 1), (3, 2))[int(rng.randint(3))]
+        a = np.float32(rng.standard_normal((nn, d) if d else nn)).astype(np.float64)
+        pos = set(int(v) for v in rng.randint(nn, size=1 + int(rng.randint(4))))
+        if k % 4 == 0:
+            pos.add(0)
+        if k % 4 == 1:
+            pos.add(nn - 1)
+        for q in pos:
+            if d:
+                a[q, int(rng.randint(d))] = NAN
+                if rng.randint(2):
+                    a[q, :] = NAN
+            else:
+                a[q] = NAN
+        st = states_of(a.tolist(), *(emb or (None, None)))
+        if len(st) - sum(S.is_missing(st)) < 3:
+            continue
+        yield missing_rp_case("RecurrenceNetwork" if k % 4 == 3 else "RecurrencePlot", a.tolist(), emb,
+                              S.METRICS[k % 3], bool((k // 3) % 2), exact=False, rich=False, rqa_every=5)
+    # ---- CrossRecurrencePlot (no missing_values option): unequal lengths, NaN in x, in y, in both
+    xpats = [(), (0,), (3,), (n - 1,), (1, 2), (0, n - 1)]
+    ypats = [(), (len(GOLOMB_Y) - 1,), (0, 3)]
+    for xi, xp in enumerate(xpats):
+        for yi, yp in enumerate(ypats):
+            if not xp and not yp:
+                continue
+            x, y = with_nan(GOLOMB, xp), with_nan(GOLOMB_Y, yp)
+            for ei, emb in enumerate((None, (2, 1), (3, 2)) if T else (None, (2, 1))):
+                for mi, metric in enumerate(S.METRICS):
+                    sx, sy = states_of(x, *(emb or (None, None))), states_of(y, *(emb or (None, None)))
+                    D = S.distance_matrix(sx, sy, metric)
+                    vs = [["threshold", t] for t in few_thresholds(D)] + \
+                         [["recurrence_rate", r] for r in (0.0, 0.2, 0.5, 0.8, 1.0)]
+                    w = {"cls": "CrossRecurrencePlot", "x": x, "y": y, "metric": metric, "exact": True,
+                         "variants": both(vs) if (T or (xi + yi + ei + mi) % 2 == 0) else [v + ["ctor"] for v in vs]}
+                    if emb:
+                        w.update(dim=emb[0], tau=emb[1])
+                    yield w
+    # ---- JointRecurrencePlot / JointRecurrenceNetwork: lags of both signs, mixed metrics
+    y7 = list(GOLOMB_Y)
+    x7 = list(GOLOMB[:7])
+    jx = [(), (0,), (3,), (6,), (2, 3)]
+    jy = [(), (1,), (6,), (0, 5)]
+    k = 0
+    for xp in jx:
+        for yp in jy:
+            if not xp and not yp:
+                continue
+            x, y = with_nan(x7, xp), with_nan(y7, yp)
+            for emb in (None, ((2, 1), (1, 1)), ((2, 2), (3, 1))) if T else (None, ((2, 1), (1, 1))):
+                for lag in (-2, 0, 1, 3) if T else (-2, 0, 1):
+                    k += 1
+                    mets = (S.METRICS[k % 3], S.METRICS[(k // 3 + k) % 3])
+                    sx = states_of(x, emb[0][0] if emb else None, emb[1][0] if emb else None)
+                    sy = states_of(y, emb[0][1] if emb else None, emb[1][1] if emb else None)
+                    N0 = min(len(sx), len(sy))
+                    if N0 - abs(lag) < 2:
+                        continue
+                    Dx, Dy = S.distance_matrix(sx[:N0], sx[:N0], mets[0]), S.distance_matrix(sy[:N0], sy[:N0], mets[1])
+                    tx, ty = few_thresholds(Dx), few_thresholds(Dy)
+                    vs = [["threshold", [tx[i % len(tx)], ty[(i + 1) % len(ty)]]] for i in range(3)]
+                    vs += [["recurrence_rate", [0.3, 0.5]], ["recurrence_rate", [0.6, 0.2]], ["recurrence_rate", [1.0, 0.4]]]
+                    w = {"cls": "JointRecurrenceNetwork" if k % 3 == 0 else "JointRecurrencePlot", "x": x, "y": y,
+                         "metric": list(mets), "lag": lag, "exact": True, "rqa_every": 4, "variants": both(vs)}
+                    if emb:
+                        w.update(dim=list(emb[0]), tau=list(emb[1]))
+                    yield w
+    # ---- InterSystemRecurrenceNetwork: constructor and set_* of a live network
+    x6, y5 = list(GOLOMB[:6]), list(GOLOMB_Y[:5])
+    k = 0
+    for xp in [(), (0,), (2,), (5,), (1, 4)]:
+        for yp in [(), (4,), (0, 2)]:
+            if not xp and not yp:
+                continue
+            x, y = with_nan(x6, xp), with_nan(y5, yp)
+            for emb in (None, (2, (1, 1)), (2, (2, 1))) if T else (None, (2, (1, 1))):
+                k += 1
+                for mi, metric in enumerate(S.METRICS):
+                    if not T and mi != k % 3 and emb:
+                        continue
+                    sx = states_of(x, emb[0] if emb else None, emb[1][0] if emb else None)
+                    sy = states_of(y, emb[0] if emb else None, emb[1][1] if emb else None)
+                    Dx, Dy, Dxy = (S.distance_matrix(a, b, metric) for a, b in ((sx, sx), (sy, sy), (sx, sy)))
+                    tx, ty, txy = few_thresholds(Dx), few_thresholds(Dy), few_thresholds(Dxy)
+                    vs = [["threshold", [tx[i % len(tx)], ty[(i + 1) % len(ty)], txy[(i + 2) % len(txy)]]] for i in range(3)]
+                    vs += [["recurrence_rate", [0.3, 0.5, 0.25]], ["recurrence_rate", [0.6, 0.0, 0.5]],
+                           ["recurrence_rate", [1.0, 0.2, 0.8]]]
+                    w = {"cls": "InterSystemRecurrenceNetwork", "x": x, "y": y, "metric": metric, "exact": True,
+                         "variants": both(vs)}
+                    if emb:
+                        w.update(dim=emb[0], tau=list(emb[1]))
+                    yield w
+    # ---- seeded float32 pairs with NaN samples for the two-series classes
+    for k in range(60 if T else 9):
+        nx, ny = 8 + int(rng.randint(15)), 8 + int(rng.randint(15))
+        metric = S.METRICS[k % 3]
+        emb = (None, (2, 1), (3, 2))[(k // 3) % 3]
+        xa = np.float32(rng.standard_normal(nx)).astype(np.float64)
+        ya = np.float32(rng.standard_normal(ny)).astype(np.float64)
+        xa[rng.randint(nx, size=1 + int(rng.randint(2)))] = NAN
+        if k % 2:
+            ya[rng.randint(ny, size=1 + int(rng.randint(2)))] = NAN
+        if k % 3 == 0:
+            xa[0] = NAN
+        if k % 3 == 1:
+            xa[-1] = NAN
+        x, y = xa.tolist(), ya.tolist()
+        w = {"cls": "CrossRecurrencePlot", "x": x, "y": y, "metric": metric, "exact": False,
+             "variants": both([["threshold", 0.8], ["recurrence_rate", 0.15], ["recurrence_rate", 0.6]])}
+        if emb:
+            w.update(dim=emb[0], tau=emb[1])
+        yield w
+        w2 = {"cls": "InterSystemRecurrenceNetwork", "x": x, "y": y, "metric": metric, "exact": False,
+              "variants": both([["threshold", [0.8, 1.1, 0.9]], ["recurrence_rate", [0.1, 0.3, 0.2]]])}
+        if emb:
+            w2.update(dim=emb[0], tau=[emb[1], 1])
+        yield w2
+        m = min(nx, ny)
+        lag = int(rng.randint(-3, 4))
+        w3 = {"cls": "JointRecurrenceNetwork" if k % 3 == 2 else "JointRecurrencePlot", "x": x[:m], "y": y[:m],
+              "metric": [metric, S.METRICS[(k // 3) % 3]], "lag": lag, "exact": False, "rqa_every": 2,
+              "variants": both([["threshold", [0.9, 1.2]], ["recurrence_rate", [0.3, 0.4]]])}
+        if emb:
+            w3.update(dim=[emb[0], 2], tau=[emb[1], 1])
+        yield w3
+
+
 def cases(tier, seed):
+    yield from base_cases(tier, seed)
+    yield from missing_family(tier, seed)
+
+
+def base_cases(tier, seed):
     rng = np.random.RandomState(seed)
     T = tier == "thorough"
 
